@@ -172,3 +172,16 @@ def module_imports(relpath):
             for a in st.names:
                 out[a.asname or a.name] = (st.module, a.name)
     return out
+
+
+def module_constant(relpath, name):
+    """value of a module-level `NAME = <literal>` assignment (numbers, strings, tuples / lists / dicts of literals), else NotImplemented"""
+    src, tree = module_ast(relpath)
+    found = NotImplemented
+    for st in tree.body:
+        if isinstance(st, ast.Assign) and len(st.targets) == 1 and isinstance(st.targets[0], ast.Name) and st.targets[0].id == name:
+            try:
+                found = ast.literal_eval(st.value)
+            except Exception:
+                found = NotImplemented
+    return found
